@@ -61,4 +61,15 @@ theorem witness_cancel_bare : slogCancel false = [.process 0 [], .onCancel 1] :=
   simp [slogCancel, openS, method, initBody, prog, Prog.isProducer, sinkLogs, logItems, Http.turn, processStep, emitStep,
     lossy, Http.parseInit, session, turnLog, run, step, next, afterPending, cancel, post, rep, attempts]
 
+/-! ### third seeded variant: `emit()` refusing a collector on which `finish()` was already called
+
+A step that calls `finish()` and then `emit(b)`: as built it amounts to emit+finish (the batch is delivered, the stream
+ends); with the extra guard the call fails and the batch is dropped. -/
+
+theorem witness_finish_then_emit_as_built :
+    normalizeWith true false [.finish, .emit ⟨2, 1, []⟩] = ⟨[], .emitFinish ⟨2, 1, []⟩, []⟩ := rfl
+
+theorem witness_finish_then_emit_guarded :
+    normalizeWith true true [.finish, .emit ⟨2, 1, []⟩] = ⟨[], .raise emitAfterFinishExn, []⟩ := rfl
+
 end VgiVerif.C10.Findings
